@@ -9,6 +9,12 @@ TRUST = "Trusted base: the Go runtime/toolchain, the monitor code in /verif itse
 
 # id -> (category, technique, level text, level note, design section)
 CHECKS = {
+ "C01": ("exploration", "runtime monitoring: reference-model oracle (a tree-walking reference evaluator written from the spec, run side by side with the production pipeline) comparing recorded host-event sequences, final globals and failure positions; step hook for opcode coverage",
+         "Generated programs (defs, lambdas, closures, comprehensions, loops, every assignment and call form, load; sub-expressions wrapped in a tracing host function so evaluation order is observable) x 32 option vectors x random layouts, plus every chunk of the repository's own test corpus, are executed by both evaluators in fresh identical environments. Held means no disagreement on the programs generated; the program space is sampled, not exhausted.",
+         TRUST + "internal/refeval (the reference semantics) and the shared value library, which both sides call; cases exhausting either budget are discarded and counted.", "§5 C01"),
+ "C12": ("exploration", "runtime monitoring: ordered-association-list reference model + structural invariant hook (VerifCheckTable) after operations; exhaustive enumeration of operation sequences over colliding host keys; long random histories",
+         "All operation sequences up to length 5 (quick) / 7 (thorough, reduced by one for the largest prefills and cross pairings - see Engine.Rule) over 5 keys of which 3 share a hash, from 22 start tables chosen around growth points, through the Go API; Starlark-level sequences through methods and operators; random histories of 10^4 operations with adversarial hash distributions.",
+         TRUST + "VerifCheckTable reads the real table; the model follows doc/spec.md for the order of derived collections.", "§5 C12"),
  "C02": ("exploration", "runtime monitoring: crash-isolated worker processes with a write-ahead log of the input in flight; Go panics recovered and fatal errors attributed by the parent; step hook as budget-overrun monitor",
          "Hostile workloads (adversarial source shapes up to 64 KiB, EOF truncations, byte/token/line mutants of the repository corpus under sampled FileOptions; direct calls of every enumerated callable with edge-pool arguments; random cyclic value graphs under str/repr/==/</hash/json.encode/sorted/in/freeze) run in child processes; any panic, fatal error or budget overrun is a violation attributed to its input. Held means no crash on the inputs generated; the space is unbounded and only sampled.",
          TRUST + "Out-of-memory fatals and makeslice panics on operands with Len >= 2^31 are excluded as the property's 'single huge allocation'; calls that exceed the wall-clock guard are counted, not judged.", "§5 C02"),
